@@ -192,6 +192,26 @@ def run(ctx):
                 continue
             rel = [c for c in f.walk() if c["k"] == "CXXMemberCallExpr" and callee(c) in release and release[callee(c)] == h and this_call(f, c)]
             ok_rel = any(cfg.before(c, n) for c in rel)
+            # the release must not run when the handle is (re)assigned its own object: releasing the sole handle frees the object
+            # before it is registered again, so the release has to be guarded by  current != new
+            newv = strip(rhs)
+            if newv is not None and newv["k"] == "DeclRefExpr" and rel:
+                INg = cfg.facts_in()
+                for c in rel:
+                    if not cfg.before(c, n):
+                        continue
+                    fs = cfg.facts_at(c, INg)
+                    differs = False
+                    for (k_, pol_) in fs:
+                        a_ = cfg.fact_node((k_, pol_))
+                        if a_["k"] == "BinaryOperator" and a_.get("op") == "==" and not pol_:
+                            l_, r_ = strip(kids(a_)[0]), strip(kids(a_)[1])
+                            for x_, y_ in ((l_, r_), (r_, l_)):
+                                if x_["k"] == "MemberExpr" and x_.get("n") == hfield[h][0] and y_["k"] == "DeclRefExpr" and y_.get("d") == newv.get("d"):
+                                    differs = True
+                    R.ob("C01-R1", differs, f.q, "release guarded by current != new: %s" % render(c, False), f.site(c),
+                         "the old object is released only when a different object is assigned" if differs else
+                         "assigning a handle its own object releases it first: if it is the only handle the object is freed and then re-registered (use after free, double delete)")
             # after the write: every path to exit registers this handle, or the pointer is known NULL
             fq = hfield[h][0]
             def is_add(b, i, e, f=f, fq=fq):
